@@ -349,6 +349,41 @@ fn run_case(c: &Case, rep: &mut Report, seen: &mut BTreeSet<Hash>) {
             }
         }
     }
+    // a refused block that has company at its height: the bad twin of the old chain's next block
+    // is offered while candidate blocks of the same height may be stored (unadopted) above the tip
+    if let Some(no) = bt.next_old {
+        let honest = decode_block(&w.blocks[no].bytes);
+        let tip_before = n.tip().1;
+        if honest.previous_block_hash == tip_before {
+            let mut twin = honest.clone();
+            twin.created_hashmap_of_slips_spent_this_block = false;
+            twin.slips_spent_this_block.clear();
+            twin.burnfee += 1;
+            twin.sign(&w.creator.private);
+            twin.generate().unwrap();
+            let bytes = crate::node::block_bytes(&twin);
+            let before = n.obs();
+            let company = before.ring.iter().any(|(_, v, _)| v.iter().any(|(id, h)| *id == twin.id && *h != twin.hash));
+            trace.push(format!("O{}x", c.a + 1));
+            rep.transitions += 1;
+            match n.add_block_bytes(&bytes) {
+                Outcome::Done(AddRes::Invalid) => {
+                    let after = n.obs();
+                    let d = trace_fields(&before).diff(&trace_fields(&after));
+                    rep.outcome(if company { "sibling-refused:stored-company-at-its-height" } else { "sibling-refused:alone-at-its-height" });
+                    if !d.is_empty() {
+                        let fields: Vec<String> = d.iter().map(|x| x.split(':').next().unwrap().to_string()).collect();
+                        rep.violate(&format!("trace-left/refused-twin-of-next-old-block/{}/{}", fields.join("+"), kprefix), format!("refused block O{}x changed state: {:?}", c.a + 1, d), json!({"ctx": ctx, "trace": trace}));
+                    }
+                }
+                Outcome::Done(r) => rep.outcome(&format!("sibling-twin:{:?}", r)),
+                o => {
+                    rep.violate(&format!("abort/refused-twin-of-next-old-block/{}", kprefix), format!("add_block(O{}x): {}", c.a + 1, o.label()), json!({"ctx": ctx, "trace": trace}));
+                    return;
+                }
+            }
+        }
+    }
     if rejected_seen {
         rep.traces_validated += 1;
         // consistency + liveness after the rejection
@@ -467,6 +502,6 @@ pub fn main(tier: Tier, replay: Option<String>) -> i32 {
         all.extend(s);
     }
     rep.states = all.len() as u64;
-    rep.required_outcomes = vec!["liveness-ok".into(), "rejected-after-winding-past-old-tip".into(), "rejected:SignedField:after-winding-1".into(), "rejected:CreatorSig:after-winding-0".into()];
+    rep.required_outcomes = vec!["liveness-ok".into(), "rejected-after-winding-past-old-tip".into(), "rejected:SignedField:after-winding-1".into(), "rejected:CreatorSig:after-winding-0".into(), "sibling-refused:stored-company-at-its-height".into(), "sibling-refused:alone-at-its-height".into()];
     rep.finish()
 }
